@@ -278,6 +278,8 @@ func (g *gogen) genEnum(e *Enum) {
 	g.p(")")
 	g.p("func (x %s) Enum() *%s { p := new(%s); *p = x; return p }", id, id, id)
 	g.p("func (x %s) String() string { if s, ok := %s_name[int32(x)]; ok { return s }; return strconv.Itoa(int(x)) }", id, id)
+	g.p("// Deprecated: Use %s.Descriptor instead.", id)
+	g.p("func (%s) EnumDescriptor() ([]byte, []int) { return nil, nil }", id)
 	g.p("")
 }
 
@@ -315,6 +317,9 @@ func (g *gogen) genMessage(m *Message) error {
 	g.p("func (x *%s) Reset() { *x = %s{} }", n.Ident, n.Ident)
 	g.p("func (x *%s) String() string { return %s.String(x) }", n.Ident, pbrt)
 	g.p("func (*%s) ProtoMessage() {}", n.Ident)
+	g.p("")
+	g.p("// Deprecated: Use %s.ProtoReflect.Descriptor instead.", n.Ident)
+	g.p("func (*%s) Descriptor() ([]byte, []int) { return nil, nil }", n.Ident)
 	g.p("")
 	emitted = map[*Oneof]bool{}
 	for _, f := range m.Fields {
